@@ -200,7 +200,7 @@ def units(tier):
 
 
 META = {
-    "level": "proof",
+    "level": "other",
     "explanation": "Filtering predicates proved; their use proved in two kernels (one bounded). Not a whole-library non-interference proof.",
     "trusted_base": ["CBMC 6.11"],
     "assumptions": [],
@@ -208,7 +208,7 @@ META = {
                     "output columns initialised to the undefined value (CalcKriging::_preprocess)"],
 }
 MANIFEST = {
-    "category": "proof",
+    "category": "other",
     "text": "Contracts on the selection predicate, on Db::getRanksActive (exactly the unmasked, defined candidates, in order) and on the per-equation flags of the kriging system (bounded).",
     "note": "Only the listed kernels; no whole-library non-interference claim.",
     "design_ref": "DESIGN.md 3 C05",
